@@ -38,8 +38,8 @@ REQUIRED_OBS = ["shutdown_instants_judged", "during_backoff", "during_handshake"
                 "during_connect_in_flight", "steady_state", "reinit_ok", "socket_level"]
 BUDGET = {"quick": 110, "thorough": 1500}
 
-TIMELINES = ["cold_refuse", "latency3", "handshake", "steady", "backoff", "sock_pending",
-             "sock_backoff"]
+TIMELINES = ["cold_refuse", "latency3", "handshake", "handshake_bytes", "steady", "backoff",
+             "hb_reset", "wfault", "subs", "sock_pending", "sock_backoff", "sock_stalled"]
 
 
 def installation(gen, variant=0):
@@ -53,13 +53,13 @@ def installation(gen, variant=0):
 async def drive(tl, gen, loop, net, log, ctx):
     """Run the timeline; ctx gets 'at' or 'sock', 'init_task'.  Returns when the timeline's
     own horizon is reached (the shutdown hook may fire at any point)."""
-    if tl in ("sock_pending", "sock_backoff"):
+    if tl in ("sock_pending", "sock_backoff", "sock_stalled"):
         w = SockWorld(gen, loop, net, log)
         ctx["sockworld"] = w
         ctx["sock"] = w.sock
         if tl == "sock_pending":
             net.script += [("refuse", 0.0), ("refuse", 0.0), ("accept", 0.5)]
-        else:
+        elif tl == "sock_backoff":
             net.script += [("accept", 0.0), ("refuse", 0.0), ("accept", 1.0)]
         await w.sock.open_socket()
         run = S.Run()
@@ -69,6 +69,13 @@ async def drive(tl, gen, loop, net, log, ctx):
             ops = [["send", S.KINDS[i % 3], "long", "t1"] for i in range(ctx.get("pending", 4))]
             await S.execute(gen, ops, w, run)
             await asyncio.sleep(6.0)
+        elif tl == "sock_stalled":
+            # senders suspended in drain() on a peer that does not read, then a reset
+            await asyncio.sleep(0.1)
+            ops = [["stall"]] + [["send", S.KINDS[i % 3], "idem", f"t{i}"] for i in range(3)] + \
+                  [["adv", 0.2], ["rst"], ["adv", 0.3], ["send", "zone_ctrl", "idem", "t9"],
+                   ["adv", 3.0]]
+            await S.execute(gen, ops, w, run)
         else:
             await asyncio.sleep(0.5)
             c = net.current()
@@ -84,13 +91,52 @@ async def drive(tl, gen, loop, net, log, ctx):
         net.script += [("accept", 3.0)]
     elif tl == "handshake":
         knobs = C.Knobs(latency=0.2)
+    elif tl == "handshake_bytes":
+        knobs = C.Knobs(latency=0.1, segmenter=lambda raw: [(-1, raw[i:i + 3])
+                                                           for i in range(0, len(raw), 3)])
+    elif tl == "hb_reset":
+        knobs = C.Knobs(answer_heartbeat=lambda n, t: 0.0 if n == 1 else None)
     w = AW.ApiWorld(gen, loop, net, log, installation(gen), knobs)
     ctx["world"] = w
     ctx["at"] = w.at
     it = loop.create_task(H.probe(log, "init", w.at.init()))
     ctx["init_task"] = it
-    if tl in ("cold_refuse", "latency3", "handshake"):
+    if tl in ("cold_refuse", "latency3", "handshake", "handshake_bytes"):
         await asyncio.sleep(7.0)
+    elif tl == "hb_reset":
+        # the heartbeat timeout resets the connection at T0+330 (connect latency 0.4 s)
+        await asyncio.sleep(329.0)
+        net.script += [("accept", 0.4)]
+        await asyncio.sleep(3.0)
+    elif tl == "wfault":
+        await asyncio.sleep(1.0)
+        c = net.current()
+        if c:
+            c.fail_write_at = c.nwrites + 2
+        net.script += [("accept", 0.3)]
+        try:
+            await w.at.air_conditioners[0].set_power(api.AcPowerControl.TURN_ON)
+        except Exception:
+            pass
+        await asyncio.sleep(3.0)
+    elif tl == "subs":
+        await asyncio.sleep(0.5)
+        try:
+            for ac in w.at.air_conditioners:
+                ac.subscribe(H.Sub(log, "ac"))
+                for z in ac.zones:
+                    z.subscribe(H.Sub(log, "zone"))
+            for i in range(4):
+                st = w.inst["zones"][0]["status"]
+                st["damper"] = (st["damper"] + 7) % 100
+                c = net.current()
+                if c:
+                    w.console.send(c, w.console.frame_zone_status())
+                    w.console.send(c, w.console.frame_ac_status())
+                await asyncio.sleep(0.05)
+        except Exception:
+            pass
+        await asyncio.sleep(1.0)
     elif tl == "steady":
         await asyncio.sleep(620.0)
     elif tl == "backoff":
@@ -294,6 +340,15 @@ def judge(gen, tl, trig, o, reinit):
     if o.get("sd_hang"):
         v("shutdown-does-not-return")
         return viol, obs
+    # shutdown() that ran to completion before init() had even started: the init() is then a
+    # "later init()" in the sense of the property and its activity is legitimate
+    init_call = next((seq for seq, _, k, d in o["log"].events
+                      if k == "API.call" and d.get("name") == "init"), None)
+    if init_call is not None and init_call >= o.get("mark", 0) - 1 and "at" != tl:
+        sd_ret = next((seq for seq, _, k, d in o["log"].events
+                       if k == "API.ret" and d.get("name") == "shutdown"), None)
+        if sd_ret is not None and init_call > sd_ret:
+            return viol, {"shutdown_before_init_started": 1}
     if "sd_exc" in o:
         v("shutdown-raises", exc=o["sd_exc"])
     if isinstance(o.get("init_ret"), str):
@@ -352,7 +407,7 @@ def judge(gen, tl, trig, o, reinit):
     if any(d["outcome"] == "accept" and tt <= t <= tt + d["latency"] and d["latency"] > 0
            for _, tt, k, d in log.events if k == "NET.connect_attempt"):
         obs["during_connect_in_flight"] = 1
-    if tl == "handshake" and 0 < t < 1.3:
+    if tl in ("handshake", "handshake_bytes") and 0 < t < 1.3:
         obs["during_handshake"] = 1
     if tl == "steady" and t > 5:
         obs["steady_state"] = 1
